@@ -47,9 +47,17 @@ func verifFunc(scheme int, c *verifCapture) any {
 	case 4:
 		return func(_ context.Context, x verifArg) string { c.calls++; c.a, c.b = x.A, x.B; return c.res }
 	case 5:
-		return func(_ context.Context, x verifArg) (string, error) { c.calls++; c.a, c.b = x.A, x.B; return c.res, c.err }
+		return func(_ context.Context, x verifArg) (string, error) {
+			c.calls++
+			c.a, c.b = x.A, x.B
+			return c.res, c.err
+		}
 	case 6:
-		return func(_ context.Context, x *verifArg) (string, error) { c.calls++; c.a, c.b = x.A, x.B; return c.res, c.err }
+		return func(_ context.Context, x *verifArg) (string, error) {
+			c.calls++
+			c.a, c.b = x.A, x.B
+			return c.res, c.err
+		}
 	case 7:
 		return func(_ context.Context, x *verifStrictArg) (string, error) {
 			c.calls++
